@@ -1067,8 +1067,6 @@ where
       let mut pending = pending_loads_lock.lock_async().await;
 
       // 2. Check for an existing `LoadFuture`.
-      //    DO NOT call self.shared.raw_get(key) here to prevent AB-BA deadlock.
-      //    The initial optimistic raw_get in fetch_with handles the "already cached" case.
       if let Some(existing_future) = pending.get(key) {
         // We will get a value, so this counts as a HIT for us.
         self.shared.metrics.record_hits(index, 1);
@@ -1076,7 +1074,17 @@ where
         break existing_future.clone();
       }
 
-      // 3. We are the "leader". This is the ONLY time a MISS is recorded.
+      // 3. No load is in flight. One may have *completed* between our cache miss and this
+      //    lock (value inserted, pending entry removed): look again, or the loader would run
+      //    a second time for the same miss. Taking the shard lock under the pending lock is
+      //    safe: the only path that nests them the other way round (the stale-refresh
+      //    trigger) uses try_lock.
+      if let Some(value) = self.peek(key).await {
+        self.shared.metrics.record_hits(index, 1);
+        return value;
+      }
+
+      // 4. We are the "leader". This is the ONLY time a MISS is recorded.
       self.shared.metrics.record_misses(index, 1);
       // Create a new future, insert it.
       let new_future = Arc::new(LoadFuture::new());
